@@ -38,6 +38,7 @@ func init() {
 			{ID: "C10-R14", Title: "frame storage is per activation (a goroutine closure keeps its values; shared with C02)", Floor: 3, Run: frameStorageIsPerActivation},
 			{ID: "C10-R15", Title: "the Go channel is operated only by object.Chan", Floor: 1, Run: channelOpsStayInTheChannelObject},
 			{ID: "C10-R16", Title: "iterables are asked for a fresh iterator", Floor: 1, Run: iterablesAreAskedForAFreshIterator},
+			{ID: "C10-R17", Title: "clones alias only what is meant to be shared", Floor: 3, Run: clonesAliasOnlyWhatIsMeantToBeShared},
 		},
 	})
 }
